@@ -257,6 +257,20 @@ def run(ctx, rep):
             and all("input_stats_file" in g and g.startswith("symc(isSome(") for g in extra[0][1])
         rep.check(ok, "R15.3", "R15.3|mismatch_sets_flag", "a statistics mismatch stores true into the any-errors flag on every path", cr,
                   "the Err result of validate_other_stats does not always set the any-errors flag (stores only after Err: %s; only after Ok: %s)" % ([(e[0][:2], [g[:60] for g in e[1]]) for e in extra], [(e[0][:2]) for e in lost]))
+        # the file that is written and the statistics a file is compared with are in the same normalisation state:
+        # finalisation (sorting, derived lists) is skipped in the report-less modes, so it must be skipped — or done —
+        # for both; a file written by a command must be accepted when the same command verifies it
+        fin_ = [bb for bb, t, cal, c in b.calls() if cal == ROOT + "::finalize"]
+        wr_ = [bb for bb, t, cal, c in b.calls() if cal == ROOT + "::write_stats"]
+        va_ = [bb for bb, t, cal, c in b.calls() if cal == ROOT + "::validate_other_stats"]
+        if fin_ and wr_ and va_:
+            w_always = all(b.all_paths_pass(0, fin_, to=[x]) for x in wr_)
+            v_always = all(b.all_paths_pass(0, fin_, to=[x]) for x in va_)
+            rep.check(w_always == v_always, "R15.3", "R15.3|same_state_written_and_compared", "statistics are written and compared in the same finalisation state", cr,
+                      "finalize() lies on every path to %s but not to %s: in the modes that skip the report a statistics file no longer round-trips" % (
+                          ("write_stats", "validate_other_stats") if w_always else ("validate_other_stats", "write_stats")))
+        else:
+            rep.missing("R15.3", "finalize / write_stats / validate_other_stats in Controller::run")
         # validation compares *finalised* data: finalize (sorting) must precede write_stats and validate_other_stats on every path
         from . import c05
         c05.normalisation_rules(ctx, rep)
